@@ -132,6 +132,7 @@ var props = map[string]propCfg{
 	"C02": {Quick: tcw(6000, 100, 60, 8), Thorough: tcw(500000, 300, 1500, 8)},
 	"C03": {Quick: tc(2000, 100, 45), Thorough: tc(150000, 250, 900)},
 	"C17": {Quick: tc(1500, 50, 60), Thorough: tc(60000, 100, 900)},
+	"C19": {Quick: tc(6000, 200, 45), Thorough: tc(400000, 500, 900)},
 	"C18": {Quick: tcw(30000, 500, 45, 6), Thorough: tcw(400000, 500, 900, 6)},
 	"C04": {Quick: tc(2500, 100, 60), Thorough: tc(150000, 200, 900), Race: true},
 	"C05": {Quick: tc(5000, 200, 45), Thorough: tc(300000, 500, 900)},
